@@ -284,6 +284,65 @@ def run_scaled(ctx, n):
                           what="ScaledTolerance is not base * max|value| (one rounding)")
 
 
+def run_scaled_comp(ctx, n):
+    """ScaledTolerance(base, use_component_magnitudes=True) on (rows, k) arrays: one value per component,
+    base * max(|a[:, c]|, |b[:, c]|) with one rounding — float64 and every integer type (unsigned columns without a
+    zero entry, signed columns with negative entries of largest magnitude, values at the type limits)."""
+    rng = ctx.rng
+    lines, lidx, cases = [], [], []
+    for _ in range(n):
+        fam = rng.choice(["f64", "int", "int"])
+        base = rng.choice([1e-12, 1e-6, 2.0 ** -20, 0.01, 0.25, 1.0, 3.0])
+        k = rng.choice([2, 3])
+        rows = rng.choice([1, 2, 5])
+        if fam == "f64":
+            dt = "f64"
+            scale = rng.choice(c01.EXPS[1:-1])
+            a = [c01.rand_float(rng, [scale]) for _ in range(rows * k)]
+            b = [c01.rand_float(rng, [scale, scale - 3]) for _ in range(rows * k)]
+            cls = None
+        else:
+            dt = rng.choice(list(c09.INTS))
+            lo, hi = c09.INTS[dt]
+            def draw():
+                q = rng.random()
+                if q < 0.25:
+                    return rng.choice([hi, hi - 1, max(lo + 1, -hi)])
+                if dt.startswith("u"):
+                    return rng.randint(1, min(hi, 200))          # no zero: the smallest entry of a column is positive
+                return rng.randint(max(lo + 1, -100), min(hi, 100))
+            a = [draw() for _ in range(rows * k)]
+            b = [draw() for _ in range(rows * k)]
+            if not dt.startswith("u") and rng.random() < 0.1:
+                a[rng.randrange(len(a))] = lo                     # type minimum: the class of finding F13
+            cls = "F13" if (not dt.startswith("u") and (lo in a or lo in b)) else None
+            sg = 0 if dt.startswith("u") else 1
+            lines.append(f"scaledcompint {sg} {dt[1:]} {f2u(base)} {k} {len(a)} {' '.join(map(str, a))} "
+                         f"{len(b)} {' '.join(map(str, b))}")
+            lidx.append(len(cases))
+        A = {"dt": dt, "shape": [rows, k], "v": a}; B = {"dt": dt, "shape": [rows, k], "v": b}
+        got = impl_scaled(base, A, B, comp=True)
+        want = []
+        for c in range(k):
+            m = max(max(abs(x) for x in a[c::k]), max(abs(x) for x in b[c::k]))
+            want.append(rn64(Fraction(base) * Fraction(float(m))))
+        cases.append([{"base": base, "a": A, "b": B, "per_component": True}, got, want, cls, None])
+    if ctx.driver_ok and lines:
+        for j, r in zip(lidx, ctx.lean(lines)):
+            cases[j][4] = r
+    for case, got, want, cls, r in cases:
+        gl = got if isinstance(got, str) else [float(x) for x in np.asarray(got, dtype=np.float64).reshape(-1)]
+        ctx.case(("scaledcomp", case["base"], case["a"]["dt"], tuple(case["a"]["v"]), tuple(case["b"]["v"])), nontrivial=True,
+                 tags=["scaled-comp", "scaled-comp-" + case["a"]["dt"]], sample=None)
+        if r is not None and "model" in r and r.get("hyp") == "1" and not isinstance(gl, str):
+            iu = ",".join("none" if np.isinf(x) else str(f2u(x)) for x in gl)
+            if r["model"] != iu:
+                ctx.mismatch(case, iu, r["model"], what="per-component ScaledTolerance values impl vs model")
+        if isinstance(gl, str) or gl != want:
+            ctx.violation(dict(case, law="scaled"), str(gl), str(want), cls=cls,
+                          what="per-component ScaledTolerance is not base * max|component| (one rounding)")
+
+
 def run_history(ctx, n):
     """one predicate object reused across fields of different magnitude / dtype vs fresh objects"""
     rng = ctx.rng
@@ -412,13 +471,108 @@ def replay_cli_chain(ctx, c):
     return bool(bad)
 
 
+def run_shape_mix(ctx, n):
+    """the laws across the shape exemption: the same field stored as (…,n) on one side and as (…,n,1) on the other
+    (a scalar field against a one-component vector field), both argument orders, every predicate, float / integer /
+    string data, identical data or one deviating entry; also 0-d against (1,).  Symmetry must hold whichever side
+    carries the extra axis; identical data must compare equal in both orders."""
+    rng = ctx.rng
+    groups, lines, lidx = [], [], []
+    for _ in range(n):
+        dt = rng.choice(["f64", "f64", "f32", "i32", "u8", "i64", "str"])
+        n0 = rng.choice([1, 2, 3, 7])
+        base = rng.choice([[n0], [n0], [n0, 2], [n0, 1], []])
+        size = 1
+        for d in base:
+            size *= d
+        if dt in ("f64", "f32"):
+            scale = rng.choice(c01.EXPS[2:-2]) if dt == "f64" else 0
+            a = [c01.rand_float(rng, [scale]) for _ in range(size)]
+            if dt == "f32":
+                a = [float(np.float32(x)) for x in a]
+                a = [x if np.isfinite(x) else 1.5 for x in a]
+        elif dt == "str":
+            a = [rng.choice(["a", "b", "wall", "inlet ", ""]) for _ in range(size)]
+        else:
+            a = [c09.rand_int(rng, dt) for _ in range(size)]
+        b = list(a)
+        deviates = rng.random() < 0.6
+        if deviates:
+            i = rng.randrange(size)
+            if dt in ("f64", "f32"):
+                b[i] = a[i] * 1.5 + 1.0
+                if dt == "f32":
+                    b[i] = float(np.float32(b[i]))
+                if b[i] == a[i] or not np.isfinite(b[i]):
+                    b[i] = a[i] + 1.0 if abs(a[i]) < 1e6 else 0.0
+            elif dt == "str":
+                b[i] = a[i] + "x"
+            else:
+                lo, hi = c09.INTS[dt]
+                b[i] = a[i] + 1 if a[i] < hi else a[i] - 1
+        ext = base + [1]
+        rel = rng.choice([["dflt"], ["num", 0.0], ["num", 1e-9]])
+        abs_ = rng.choice([["dflt"], ["num", 0.0]])
+        for kind in ("fuzzy", "default", "exact"):
+            if kind == "fuzzy" and dt not in ("f64", "f32"):
+                continue          # explicit FuzzyEquality on strings / integers: no default tolerance, findings F12/F13
+            As, Ae = {"dt": dt, "shape": base, "v": a}, {"dt": dt, "shape": ext, "v": a}
+            Bs, Be = {"dt": dt, "shape": base, "v": b}, {"dt": dt, "shape": ext, "v": b}
+            evs = {"se": (As, Be), "es": (Be, As), "es2": (Ae, Bs), "se2": (Bs, Ae), "self_se": (As, Ae), "self_es": (Ae, As)}
+            g = {"kind": kind, "dt": dt, "evs": evs, "rel": rel, "abs": abs_, "dev": deviates, "model": {}}
+            if dt != "f32":
+                for name, (x, y) in evs.items():
+                    lines.append(predio.enc_pred(kind, rel, abs_, x, y)); lidx.append((len(groups), name))
+            groups.append(g)
+    if ctx.driver_ok and lines:
+        for (gi, name), r in zip(lidx, ctx.lean(lines)):
+            groups[gi]["model"][name] = r
+    for g in groups:
+        kind, evs, rel, abs_ = g["kind"], g["evs"], g["rel"], g["abs"]
+        v = {name: predio.run_impl(kind, rel, abs_, x, y) for name, (x, y) in evs.items()}
+        case = {"kind": kind, "rel": rel, "abs": abs_, "evaluations": {k: [x, y] for k, (x, y) in evs.items()}}
+        (x0, y0) = evs["se"]
+        ctx.case(("shapemix", kind, g["dt"], str(x0["shape"]), tuple(x0["v"]), tuple(y0["v"]), str(rel), str(abs_)),
+                 nontrivial=g["dev"], tags=["shape-mix", "shape-mix-" + kind, "shape-mix-" + g["dt"],
+                                            "shape-mix-base%d" % len(x0["shape"])], sample=None)
+        for name, r in g["model"].items():
+            if "model" not in r:
+                continue
+            if r.get("hyp") == "1" and r["model"] != v[name]:
+                ctx.mismatch(dict(case, evaluation=name), v[name], r["model"])
+        for p, q in (("se", "es"), ("es2", "se2"), ("self_se", "self_es")):
+            if v[p] != v[q]:
+                ctx.violation(dict(case, law="symmetric", pair=[p, q]), f"{v[p]}/{v[q]}", "equal verdicts",
+                              what="verdict depends on which side stores the scalar field with the extra axis of length 1")
+        for p in ("self_se", "self_es"):
+            if v[p] != "T":
+                ctx.violation(dict(case, law="reflexive", evaluation=p), v[p], "T",
+                              what="identical data stored as (..,n) and (..,n,1) do not compare equal")
+        if g["dev"]:
+            for p in ("se", "es", "es2", "se2"):
+                if v[p] == "T" and (kind != "fuzzy"):
+                    ctx.violation(dict(case, law="shape-mix-deviation", evaluation=p), v[p], "F",
+                                  what="a deviating entry is accepted when the two sides differ by a trailing axis of length 1")
+
+
+def replay_shape_mix(ctx, c):
+    kind, rel, abs_ = c["kind"], c["rel"], c["abs"]
+    v = {k: predio.run_impl(kind, rel, abs_, x, y) for k, (x, y) in c["evaluations"].items()}
+    print("replay shape-mix verdicts:", v)
+    bad = [pq for pq in (("se", "es"), ("es2", "se2"), ("self_se", "self_es")) if v[pq[0]] != v[pq[1]]]
+    bad += [p for p in ("self_se", "self_es") if v[p] != "T"]
+    print("replay: laws violated:", bad or "none")
+    return bool(bad)
+
+
 def run(ctx):
     ctx.rule = ("metamorphic groups on real predicate objects: float64 pairs (boundary-directed deviations, shapes "
                 "(n,),(n,k),(n,k,k)) evaluated as (a,a),(a,b),(b,a) and at tolerance levels t1<=t2 (scalar, per-component, "
                 "scaled); integer pairs of every width/signedness under Default/Exact/Fuzzy (values at the type limits, half range, "
                 "+-2^53; (n,) and 0-d; signed pairs are classified by the driver as safe / type-minimum / overflowing "
                 "difference); ScaledTolerance values on "
-                "float and integer arrays; predicate objects reused across 3-6 fields; the same laws on the command-line route "
+                "float and integer arrays; predicate objects reused across 3-6 fields; the same field stored as (..,n) against "
+                "(..,n,1) in either argument order under every predicate (float/int/str data, 0-d against (1,)); the same laws on the command-line route "
                 "(CSV / .vtu files with float64 fields, chains of -rtol / -atol option lists starting at an explicit zero, general "
                 "and per-field values in either order, files swapped, file against itself); non-trivial = a != b; distinct = "
                 "distinct operands+tolerances resp. (option chain, file contents)")
@@ -429,7 +583,9 @@ def run(ctx):
     run_floats(ctx, ctx.scale(1500, 150000))
     run_ints(ctx, ctx.scale(400, 30000))
     run_scaled(ctx, ctx.scale(600, 50000))
+    run_scaled_comp(ctx, ctx.scale(300, 20000))
     run_history(ctx, ctx.scale(150, 10000))
+    run_shape_mix(ctx, ctx.scale(300, 20000))
     run_cli_chains(ctx, n_vtu=ctx.scale(16, 70), rounds=ctx.scale(1, 12))
 
 
@@ -442,6 +598,15 @@ def replay_witness(ctx, entry):
         v1 = predio.run_impl(w["kind"], w["t1"][0], w["t1"][1], w["a"], w["b"])
         v2 = predio.run_impl(w["kind"], w["t1"][0], w["t1"][1], w["b"], w["a"])
         return v1 != v2, f"(a,b)={v1} (b,a)={v2}"
+    if w["law"] == "scaled" and w.get("per_component"):
+        k = w["a"]["shape"][1]
+        got = impl_scaled(w["base"], w["a"], w["b"], comp=True)
+        want = []
+        for c in range(k):
+            m = max(max(abs(x) for x in w["a"]["v"][c::k]), max(abs(x) for x in w["b"]["v"][c::k]))
+            want.append(rn64(Fraction(w["base"]) * Fraction(float(m))))
+        gl = got if isinstance(got, str) else [float(x) for x in np.asarray(got, dtype=np.float64).reshape(-1)]
+        return (isinstance(gl, str) or gl != want), f"per-component ScaledTolerance={gl} expected {want}"
     if w["law"] == "scaled":
         got = impl_scaled(w["base"], w["a"], w["b"])
         m = max(max(abs(x) for x in w["a"]["v"]), max(abs(x) for x in w["b"]["v"]))
@@ -455,6 +620,11 @@ def replay(ctx, payload):
     law = c.get("law")
     if c.get("kind") == "cli-chain":
         if replay_cli_chain(ctx, c):
+            print(f"VIOLATION property=C10 replay={payload.get('_path', '<replay>')}")
+            return 1
+        return 0
+    if "evaluations" in c:
+        if replay_shape_mix(ctx, c):
             print(f"VIOLATION property=C10 replay={payload.get('_path', '<replay>')}")
             return 1
         return 0
